@@ -178,6 +178,7 @@ def st_case(draw):
         "coord": coord, "cdtype": cdt,
         "x": draw(A.arrays(batch + grid, dt)),
         "y": draw(A.arrays(batch + pts, dt)),
+        "layout": draw(st.sampled_from(A.LAYOUTS)), "clayout": draw(st.sampled_from(A.LAYOUTS)),
     }
 
 
@@ -294,8 +295,11 @@ def check_case(case):
     kernel, grid, batch, pts = case["kernel"], case["grid"], case["batch"], case["pts"]
     nd, N, npts = len(grid), A.prod(grid), A.prod(pts)
     mode, cdt = case["mode"], case["cdtype"]
-    x = A.arr(case["x"])
-    y = A.arr(case["y"])
+    # caller's arrays in the generated memory layout (same values)
+    x = A.relayout(A.arr(case["x"]), case.get("layout", "c"))
+    y = A.relayout(A.arr(case["y"]), case.get("layout", "c"))
+    if case.get("layout", "c") != "c" or case.get("clayout", "c") != "c":
+        r.label("layout:data=%s,coord=%s" % (case.get("layout", "c"), case.get("clayout", "c")))
     dt = x.dtype
     wl = case["width"] if isinstance(case["width"], list) else [case["width"]] * nd
     pl = case["param"] if isinstance(case["param"], list) else [case["param"]] * nd
@@ -310,7 +314,7 @@ def check_case(case):
     # the floats handed to sigpy are exactly the rationals used by the oracle
     assert all(Fraction(float(coord[j, d])) == cf[j][d] for j in range(npts) for d in range(nd)), "coord not exact"
     assert all(float(np.dtype(cdt).type(v)) == float(v) for v in wl + pl), "width/param not exact in coord dtype"
-    coord = coord.reshape(pts + [nd])
+    coord = A.relayout(coord.reshape(pts + [nd]), case.get("clayout", "c"))
     wf = [Fraction(w) for w in wl]
     if mode == "float":
         assert all(_tie_margin(cf[j][d], wf[d]) >= FLOAT_MARGIN for j in range(npts) for d in range(nd)), "near tie"
